@@ -79,6 +79,10 @@ CHECKS = {
    text="differential over five builds of the same corpus runner (none / autocomplete / autocomplete+docgen+batteries+derive / dull-color / bright-color) on a proptest-generated corpus (40k cases quick); byte-identical dumps required; a difference is minimised across the two disagreeing builds",
    note="trusted: the corpus decoder is feature independent (completers are simply not attached where the feature is absent); panic locations are not compared, messages are",
    tech="property-based testing, differential between cargo feature builds of one generated corpus"),
+ "C17": dict(
+   text="differential between #[derive(Bpaf)] and the documented hand-written equivalent over a generated family of types (40 per seed in quick, 4x150 in thorough), both compiled into one executable and run on generated argument vectors (20k in quick): equal values, equal failure class, equal text, equal help",
+   note="trusted: the twin printer in harness/src/c17gen.rs as a reading of the documented derive rules; a family that does not compile is reported as exit 2 (infrastructure), not as a violation",
+   tech="property-based testing, differential (derive macro vs generated hand-written combinators) over a seeded family of type definitions"),
 }
 
 PENDING_REASON = "check not built yet in this session (designed in DESIGN.md section 4; property-based testing applies to it)"
